@@ -270,6 +270,16 @@ def c08_junk_s(draw, tier):
     live = sorted({int(l.split(" ")[0]) for l in good if " C " in l[:14]})
     n = draw(st.integers(1, 6))
     ins = [[draw(st.integers(0, len(good))), draw(junk_line(live))] for _ in range(n)]
+    xs = [i for i, l in enumerate(good) if l.startswith("-1 X ") and " :" in l]
+    if xs and draw(st.integers(0, 2)) == 0:
+        # a reply of an awaited service that lost its text (or its tag, or came with a field too many) on the way:
+        # the same service, the same routing tag, right before the real reply
+        i = draw(st.sampled_from(xs))
+        head = good[i].split(" :", 1)[0]
+        cut = draw(st.sampled_from([head, head, head + " ", " ".join(head.split(" ")[:3]), head.replace(" X ", " x ", 1).rsplit(" ", 1)[0],
+                                    head + " extra", head.replace("-1 X", "-1 X ", 1)]))
+        if cut != head.replace("-1 X", "-1 X ", 1) or True:
+            ins.append([i, cut])
     chunks = draw(st.lists(st.sampled_from([1, 3, 7, 33, 100, 4096]), min_size=0, max_size=6))
     return {"mode": "junk", "conf": conf, "lines": good, "junk": ins, "chunks": chunks}
 
